@@ -1919,6 +1919,13 @@ EGLPNUM_TYPENAME_QSLIB_INTERFACE int EGLPNUM_TYPENAME_QSwrite_basis (
 
 	if (B)
 	{
+		/* the writer walks the status arrays with the counts of the problem */
+		if (B->nstruct != p->qslp->nstruct || B->nrows != p->qslp->nrows)
+		{
+			QSlog("size of basis does not match lp");
+			rval = 1;
+			goto CLEANUP;
+		}
 		rval = qsbasis_to_illbasis (B, &iB);
 		CHECKRVALG (rval, CLEANUP);
 		basis = &iB;
